@@ -51,27 +51,8 @@ func propC06(c *Ctx, r *Report) {
 	r.Trusted = []string{"SQLite UNIQUE constraints", "go/ssa"}
 	cat := buildSQLCat(c)
 
-	r.rule("C06-R1/replay-guard", 4, "record/hold/execute only when the entry hash has not been executed")
-	atb := c.fn("node.Pegnetd.ApplyTransactionBlock")
+	ruleReplayGuard(c, r, "C06-R1/replay-guard")
 	hold := c.fn("node.Pegnetd.ApplyTransactionBatchesInHolding")
-	for _, spec := range []struct {
-		f     *ssa.Function
-		calls []string
-	}{
-		{atb, []string{"pegnet.(*Pegnet).InsertTransactionHistoryTxBatch", "pegnet.(*Pegnet).InsertTransactionBatchHolding", "node.(*Pegnetd).applyTransactionBatch"}},
-		{hold, []string{"node.(*Pegnetd).applyTransactionBatch"}},
-	} {
-		for _, n := range spec.calls {
-			cs := findCalls(spec.f, n)
-			if len(cs) == 0 {
-				r.viol("C06-R1/replay-guard", fmt.Sprintf("%s -> %s", fname(spec.f), n), c.pos(spec.f.Pos()), "call not found")
-			}
-			for _, ci := range cs {
-				okk, why := replayGuarded(c, spec.f, ci)
-				r.check(okk, "C06-R1/replay-guard", fmt.Sprintf("%s -> %s", fname(spec.f), shortCallee(ci.Common())), c.ipos(ci), "dominated by the not-a-replay edge", why+": an entry that already changed the ledger can be recorded or executed again")
-			}
-		}
-	}
 
 	r.rule("C06-R2/relation-row", 1, "every debited transaction leaves its relation row")
 	rb := c.fn("node.Pegnetd.recordBatch")
@@ -110,35 +91,8 @@ func propC06(c *Ctx, r *Report) {
 		r.check(len(bad) == 0, "C06-R2/relation-row", "recordBatch writes (entry hash, input address) on every debiting iteration", c.pos(rb.Pos()), "", strings.Join(bad, "; "))
 	}
 
-	r.rule("C06-R3/same-table-same-tx", 3, "replay check and relation insert use the same table and the block's tx")
+	ruleReplaySameTx(c, r, cat, "C06-R3/same-table-same-tx")
 	irt := c.fn("pegnet.Pegnet.IsReplayTransaction")
-	itr := c.fn("pegnet.Pegnet.InsertTransactionRelation")
-	var rd, wr *SQLStmt
-	for _, st := range cat.Stmts {
-		if st.Fn == irt && st.Verb == "SELECT" {
-			rd = st
-		}
-		if st.Fn == itr && st.Verb == "INSERT" {
-			wr = st
-		}
-	}
-	if rd == nil || wr == nil {
-		r.viol("C06-R3/same-table-same-tx", "statements of IsReplayTransaction / InsertTransactionRelation", c.pos(irt.Pos()), fmt.Sprintf("read statement found=%v (a replay check that delegates to another function is judged by that function's receiver), write statement found=%v", rd != nil, wr != nil))
-	} else {
-		r.check(rd.Table == wr.Table, "C06-R3/same-table-same-tx", "same table", c.ipos(rd.Site), rd.Table, fmt.Sprintf("the replay check reads %s but executed entries are recorded in %s", rd.Table, wr.Table))
-		r.check(strings.Contains(rd.Where, "entry_hash") && strings.Contains(wr.Text, "entry_hash"), "C06-R3/same-table-same-tx", "keyed by entry_hash", c.ipos(rd.Site), "", "replay check WHERE clause: "+rd.Where)
-		r.check(rd.Recv == "Tx" && derivesFromTxParam(rd.RecvVal) && wr.Recv == "Tx", "C06-R3/same-table-same-tx", "replay check runs on the block's tx", c.ipos(rd.Site), "", "the replay check reads through "+rd.Recv+": rows written earlier in the same block are invisible to it, so a second copy of an entry in one block executes again")
-	}
-	// no call inside IsReplayTransaction to a pool reader
-	for _, ci := range callsOf(irt) {
-		if sc := ci.Common().StaticCallee(); sc != nil && fnInModule(sc) {
-			for _, st := range cat.Stmts {
-				if st.Fn == sc && st.Recv == "DB" {
-					r.viol("C06-R3/same-table-same-tx", "IsReplayTransaction delegates to "+fname(sc), c.ipos(ci), "the replay check is answered from the connection pool (committed state): copies of an entry inside one block do not see each other")
-				}
-			}
-		}
-	}
 
 	r.rule("C06-R4/replay-check-errors", 1, "the replay check does not swallow errors")
 	eff := computeEffects(c)
@@ -188,4 +142,62 @@ func propC06(c *Ctx, r *Report) {
 			settleOnce(c, r, "C06-R6/settle-once", hold, ci, l)
 		}
 	}
+}
+
+func ruleReplayGuard(c *Ctx, r *Report, rule string) {
+	r.rule(rule, 4, "record/hold/execute only when the entry hash has not been executed")
+	atb := c.fn("node.Pegnetd.ApplyTransactionBlock")
+	hold := c.fn("node.Pegnetd.ApplyTransactionBatchesInHolding")
+	for _, spec := range []struct {
+		f     *ssa.Function
+		calls []string
+	}{
+		{atb, []string{"pegnet.(*Pegnet).InsertTransactionHistoryTxBatch", "pegnet.(*Pegnet).InsertTransactionBatchHolding", "node.(*Pegnetd).applyTransactionBatch"}},
+		{hold, []string{"node.(*Pegnetd).applyTransactionBatch"}},
+	} {
+		for _, n := range spec.calls {
+			cs := findCalls(spec.f, n)
+			if len(cs) == 0 {
+				r.viol(rule, fmt.Sprintf("%s -> %s", fname(spec.f), n), c.pos(spec.f.Pos()), "call not found")
+			}
+			for _, ci := range cs {
+				okk, why := replayGuarded(c, spec.f, ci)
+				r.check(okk, rule, fmt.Sprintf("%s -> %s", fname(spec.f), shortCallee(ci.Common())), c.ipos(ci), "dominated by the not-a-replay edge", why+": an entry that already changed the ledger can be recorded or executed again")
+			}
+		}
+	}
+
+}
+
+func ruleReplaySameTx(c *Ctx, r *Report, cat *SQLCat, rule string) {
+	r.rule(rule, 3, "replay check and relation insert use the same table and the block's tx")
+	irt := c.fn("pegnet.Pegnet.IsReplayTransaction")
+	itr := c.fn("pegnet.Pegnet.InsertTransactionRelation")
+	var rd, wr *SQLStmt
+	for _, st := range cat.Stmts {
+		if st.Fn == irt && st.Verb == "SELECT" {
+			rd = st
+		}
+		if st.Fn == itr && st.Verb == "INSERT" {
+			wr = st
+		}
+	}
+	if rd == nil || wr == nil {
+		r.viol(rule, "statements of IsReplayTransaction / InsertTransactionRelation", c.pos(irt.Pos()), fmt.Sprintf("read statement found=%v (a replay check that delegates to another function is judged by that function's receiver), write statement found=%v", rd != nil, wr != nil))
+	} else {
+		r.check(rd.Table == wr.Table, rule, "same table", c.ipos(rd.Site), rd.Table, fmt.Sprintf("the replay check reads %s but executed entries are recorded in %s", rd.Table, wr.Table))
+		r.check(strings.Contains(rd.Where, "entry_hash") && strings.Contains(wr.Text, "entry_hash"), rule, "keyed by entry_hash", c.ipos(rd.Site), "", "replay check WHERE clause: "+rd.Where)
+		r.check(rd.Recv == "Tx" && derivesFromTxParam(rd.RecvVal) && wr.Recv == "Tx", rule, "replay check runs on the block's tx", c.ipos(rd.Site), "", "the replay check reads through "+rd.Recv+": rows written earlier in the same block are invisible to it, so a second copy of an entry in one block executes again")
+	}
+	// no call inside IsReplayTransaction to a pool reader
+	for _, ci := range callsOf(irt) {
+		if sc := ci.Common().StaticCallee(); sc != nil && fnInModule(sc) {
+			for _, st := range cat.Stmts {
+				if st.Fn == sc && st.Recv == "DB" {
+					r.viol(rule, "IsReplayTransaction delegates to "+fname(sc), c.ipos(ci), "the replay check is answered from the connection pool (committed state): copies of an entry inside one block do not see each other")
+				}
+			}
+		}
+	}
+
 }
